@@ -53,6 +53,12 @@ CHECKS = {
  "C03": ("Lean theorem C03_file over a model of dumpCdrFile + CDRFile.Encoding (induction over an arbitrary list of marshalled records): if every record is at most 65535 octets the independent TS 32.297 reader reads the written file back as exactly those payloads, header-length/file-length fields equal the real sizes, the count equals the number of records and every record length field equals its payload size (C03_lengths_consistent); C03_oversize shows the limit is necessary. Partial: that the processor never hands dumpCdrFile an oversize record is NOT proved - it is decided on driven histories (growth across header boundaries, requests sized at run time to land exactly on the limit, oversize single requests) and is violated on four listed call sites (known findings). Every written file is read by the Lean TS 32.297 reader, its payloads walked by the Lean X.690 walker and matched against the subscriber's records, and the whole file compared with the dump model.",
          "Trusted: Lean kernel; the dump model (validated by exact byte comparison on every written file); os file I/O; the record-size limit clause is exploration only.",
          "Lean 4 proof over a file-writer model + exact correspondence + Lean-evaluated independent reader/walker on written files (partial for the size guard)", "DESIGN.md §5 C03"),
+ "C18": ("Lean theorems C18_bounded / C18_none_left over a state machine of the Diameter client functions under an adversarial scheduler (any interleaving of request starts, answer arrivals of any request in any order or never, timer expiries, returns): at most one connection per subscriber and peer is open at any time, none after the request returned, no handler task is left blocked - for histories of any length. The machine's parameters (deferred Close, channel made per request, buffered, select-default send, timeout) are regenerated from the source by a go/ast extractor and checked by decide. Timed scenarios against the real servers count established connections and goroutines after 10/100/1000 updates and are compared with the machine.",
+         "Trusted: Lean kernel; go-diameter's connection/mux behaviour is modelled from its source; the go/ast fact extractor; /proc/self/net/tcp and runtime.NumGoroutine as observations.",
+         "Lean 4 invariant proof over a client state machine under every scheduler + regenerated source facts (decide) + timed correspondence with real peers", "DESIGN.md §5 C18"),
+ "C19": ("Lean theorems over the same client machine, for every scheduler: C19_no_crosstalk (a request only ever acts on the answer to itself), C19_never_wedged (no handler blocks, no request is stuck behind the mux), C19_next_request_starts, C19_late_answer_discarded (an answer arriving after its request returned changes nothing), C19_timeout_ends_wait; witnesses show each source fact is needed (the pre-fix machines wedge / cross-talk). Source facts regenerated by go/ast and checked by decide. Timed fault-injection scenarios (answers late by 6.5 s, lost, 2.5 s, in random patterns, on both peers) against the real servers are compared with the machine and judged directly (every update completes, acts on its own answer).",
+         "Trusted: as C18. The microsecond race between timer and answer is covered by the model's scheduler and the source facts; timed runs keep 1.5 s clear of it (a search around the timeout runs only when the obligations break).",
+         "Lean 4 invariant proof over a client state machine under every scheduler + regenerated source facts (decide) + fault-injection correspondence", "DESIGN.md §5 C19"),
 }
 PENDING_REASON = "check not built yet in this revision (work in progress; DESIGN.md plans a Lean model + correspondence check for it)"
 
